@@ -210,7 +210,7 @@ pub proof fn lemma_stamped_unread(ino: Inode, t: int, gran: int)
              'old(w).solo ==> (r.is_ok() ==> final(w).inodes[file.ino()].atime >= final(w).inodes[file.ino()].mtime && final(w).hard_faults == old(w).hard_faults)'),
             ('C18:error-is-a-real-fault', 'old(w).solo ==> (r.is_err() ==> final(w).hard_faults > old(w).hard_faults)'),
         ])
-    f.insert_after('let mtime = FileTime :: from_last_modification_time ( & meta ) ;',
+    f.insert_after_stmt('let mtime = FileTime :: from_last_modification_time',
                    '\n    proof { filetime::lemma_lex_is_ns(atime, mtime); lemma_trunc(mtime.ns(), old(w).gran); }')
     f.add_arg_if_present('FileTime :: now', TW)
 
@@ -472,7 +472,7 @@ pub open spec fn records_ok(cache: Seq<CachedFile>, w: World, dir: PathV) -> boo
     cf.insert_before('cache . push', 'let ghost c0 = cache@;\n                ')
     cf.insert_after('if let Ok ( entry ) = maybe_entry {', '\n            proof { assert(entry.name() == l0[k - 1].unwrap() && entry.dir() == dir); }')
     cf.insert_after('Some ( b\'.\' ) ) ;', '\n            proof { assert(is_dotfile == (entry.name()[0] == 0x2e)); }')
-    cf.insert_after('cache . push ( CachedFile :: new ( entry , & meta ) ) ;',
+    cf.insert_after_stmt('cache . push (',
                     '\n                proof { lemma_push_record(c0, cache@.last(), l0, k, *old(w), dir, w.hard_faults == old(w).hard_faults); '
                     'assert(cache@ == c0.push(cache@.last())); }')
     # an unreadable item (`if let Ok(entry)` not taken) is a hard fault: completeness is no longer claimed
@@ -1182,7 +1182,7 @@ pub open spec fn write_frame(old: World, fin: World, base: PathV, name: Seq<u8>,
         cl.replace('handle ( )', 'handle(&dirent, &mut temp, threshold, Tracked(w))', 'T4-closure-call')
         cl.insert_before('let _ = handle', 'let ghost wb = *w;\n        ')
         cl.insert_after('let _ = handle ( ) ;', '\n        proof { lemma_temp_frame_step(*old(w), wb, *w, tdir, reading, dirent.name()); }')
-        cl.insert_after('let metadata = dirent . metadata ( ) ? ;', '\n            broadcast use group_asref;\n            proof { lemma_child(dirent.dir(), dirent.name()); }')
+        cl.insert_after_stmt('let metadata = dirent . metadata', '\n            broadcast use group_asref;\n            proof { lemma_child(dirent.dir(), dirent.name()); }')
         after_next = ''
     else:
         # the per-entry closure is gone: the loop body is woven as it stands; one generic hint at the top of the body says
@@ -1411,7 +1411,7 @@ pub open spec fn write_frame(old: World, fin: World, base: PathV, name: Seq<u8>,
             ])
         f.body_start('broadcast use group_asref;\n        proof { lemma_cleanup_frame_same(*old(w), self.spec_base()); }')
         u.trait_methods[opname] = f
-        f.insert_after('let ret = self . maybe_cleanup ( & dst ) ? ;', '\n        let ghost wm = *w;\n        proof { lemma_child(self.spec_base(), str_bytes(name)); if valid_key(str_bytes(name)) { lemma_ready_after_cleanup(*old(w), wm, pv(value), self.spec_base(), str_bytes(name)); } }')
+        f.insert_after_stmt('let ret = self . maybe_cleanup (', '\n        let ghost wm = *w;\n        proof { lemma_child(self.spec_base(), str_bytes(name)); if valid_key(str_bytes(name)) { lemma_ready_after_cleanup(*old(w), wm, pv(value), self.spec_base(), str_bytes(name)); } }')
         f.insert_before('return Ok ( ret ) ;', 'proof { if w.hard_faults == old(w).hard_faults { assert(%s(*old(w), wm, *w, self.spec_base(), str_bytes(name), pv(value), ret.is_some())); } }\n            ' % exact)
         f.insert_before('std :: fs :: create_dir_all', 'let ghost w1 = *w;\n        ', nth=0)
         f.insert_after('. expect ( "must have parent" ) ) ? ;', '\n        let ghost w2 = *w;\n        proof { lemma_ready_after_retry(wm, w1, w2, pv(value), self.spec_base(), str_bytes(name)); }', nth=0)
